@@ -29,9 +29,6 @@ namespace Ndn.C17
 def noArgs : Args := {}
 def r400 : Resp := .ctrl 400 noArgs
 
-/-- the parameters component: `interest.NameV[prefixLength()+2]` exists iff the name has ≥ 5
-    components; the handlers test `len(NameV) < prefixLength()+3` first -/
-def hasParams (name : Name) : Bool := 5 ≤ name.length
 
 /-- `faceID := inFace; if params.FaceId != nil && *params.FaceId != 0 { faceID = *params.FaceId }` -/
 def pickFace (a : Args) (inFace : Nat) : Nat :=
@@ -344,7 +341,7 @@ def run (st : St) (ext : Ext) (inFace : Nat) (name : Name) (p : Params) : St × 
 
 /-! ### The forwarding thread in front of management (fw/fw/thread.go) -/
 
-def localhostVal : Bytes := (gc "localhost").val
+def localhostVal : Bytes := bLocalhost
 
 /-- `processIncomingInterest`: the arrival face must exist, and a non-local face may not use a
     name whose first component value is "localhost" -/
